@@ -50,7 +50,7 @@ main(void)
 	uint32_t d0;
 	int i, hs;
 #ifdef NATIVE_REPLAY
-	memset(c, 0, sizeof *c);
+	NATIVE_FILL(c, sizeof *c);
 #endif
 	the = c;
 	for (i = 0; i < 8; i ++) { iobuf[i] = ND_U8(); orig[i] = iobuf[i]; }
